@@ -41,6 +41,13 @@ Theorem C13_forward_relay_zones : forall t c s m x e ts row z, mz_wf t ->
 Proof. exact mz_exec_handle_xc. Qed.
 Print Assumptions C13_forward_relay_zones.
 
+(* the side condition of the two relay theorems: Zone::OnAllConfigLoaded refuses a zone whose parent is global, so only the
+   target endpoint's own zone has to be a non-global one *)
+Theorem C13_path_plain_from_parents : forall t tz,
+  (forall z p, mz_par t z = Some p -> mz_glob t p = false) -> mz_glob t tz = false -> mz_path_plain t tz.
+Proof. exact mz_path_plain_of_parents. Qed.
+Print Assumptions C13_path_plain_from_parents.
+
 (* error replies (exit 126: a child endpoint lacks the capability, or the child zone cannot see the checkable) go to the
    receiver's own zone and its parent only, and only for a target inside the receiver's subtree *)
 Theorem C13_reply_relay_zones : forall t c s m x e ts row z, mz_wf t ->
